@@ -131,6 +131,8 @@ func newPkg(pkg *packages.Package, u *Universe) Package {
 				}
 
 				if named != nil {
+					// the receiver of a method of a generic type is an instantiation: file it under the declared type
+					named = named.Origin()
 					p.methods[named] = append(p.methods[named], x)
 				}
 			} else {
@@ -327,6 +329,10 @@ func (p *pkgInfo) Functions() map[string]*types.Func {
 }
 
 func (p *pkgInfo) MethodsOf(n *types.Named, ptr bool) []*types.Func {
+	if n != nil {
+		n = n.Origin()
+	}
+
 	funcs, _ := p.methods[n]
 
 	if ptr {
